@@ -793,4 +793,500 @@ theorem toMapping_ndl (P : Prims) (L : PrimLaws P) (E : Env) (n : Bool) (v : V)
   · exact h
   · exact toDict_ndl P L E n 0 v hk r h
 
+/-! ### (B) `no_explicit_cast` only restricts (no_data_loss off) -/
+
+theorem toNull_nec (v : V) : Sub (toNull ⟨true, false⟩ v) (toNull ⟨false, false⟩ v) := by
+  intro r h
+  cases v <;> simp [toNull] at h ⊢ <;> exact h
+
+theorem toStr_nec (P : Prims) (E : Env) (c : Nat) (v : V) :
+    Sub (toStr P E ⟨true, false⟩ c v) (toStr P E ⟨false, false⟩ c v) := by
+  intro r h
+  cases v <;> simp [toStr, attemptFrom, fromByteLike, isInst, V.cls?, Base.sub] at h ⊢ <;> try exact h
+  case seq k c' xs => cases k <;> simp [SeqK.base] at h
+  case bytes k c' bs =>
+    obtain ⟨d, hd, hr⟩ := Outcome.bind_eq_ok.mp h
+    obtain ⟨s, hs, hd'⟩ := Outcome.bind_eq_ok.mp hd
+    simp at hd'
+    subst hd'
+    simp only [hs, Outcome.ok_bind] at hr ⊢
+    simpa [isInst, V.cls?, Base.sub] using hr
+
+theorem toBytes_nec (P : Prims) (E : Env) (b : BytesK) (c : Nat) (v : V) :
+    Sub (toBytes P E ⟨true, false⟩ b c v) (toBytes P E ⟨false, false⟩ b c v) := by
+  intro r h
+  cases v <;> simp [toBytes, attemptFrom] at h ⊢ <;> try exact h
+
+theorem toArray_nec (P : Prims) (b : SeqK) (c : Nat) (v : V) :
+    Sub (toArray P ⟨true, false⟩ b c v) (toArray P ⟨false, false⟩ b c v) := by
+  intro r h
+  unfold toArray at h ⊢
+  splith h
+  · exact h
+  · splith h
+    · exact h
+    · simp at h
+
+theorem toDict_nec (P : Prims) (E : Env) (c : Nat) (v : V) :
+    Sub (toDict P E ⟨true, false⟩ c v) (toDict P E ⟨false, false⟩ c v) := by
+  intro r h
+  unfold toDict at h ⊢
+  splith h
+  · exact h
+  · split at h
+    · exact h
+    · simp at h
+
+theorem attemptFromNumber_scalar (P : Prims) (E : Env) (v : V)
+    (hs : isInst v .int = true ∨ isInst v .decimal = true ∨ isInst v .float = true ∨ isInst v .str = true) :
+    attemptFromNumber P E ⟨false, false⟩ v = .ok (if truthy v then v else .int 0 0) := by
+  cases v <;> simp [isInst, V.cls?, Base.sub] at hs <;>
+    simp [attemptFromNumber, attemptFrom, fromByteLike] <;> try (split <;> simp_all)
+  case bytes k c bs => cases k <;> simp [BytesK.base] at hs
+  case seq k c xs => cases k <;> simp [SeqK.base] at hs
+
+theorem toFloat_nec (P : Prims) (E : Env) (c : Nat) (v : V) :
+    Sub (toFloat P E ⟨true, false⟩ c v) (toFloat P E ⟨false, false⟩ c v) := by
+  intro r h
+  cases v with
+  | float c' x => simpa [toFloat] using h
+  | bool b =>
+    simp [toFloat, isInst, V.cls?, Base.sub] at h ⊢
+    rw [attemptFromNumber_scalar P E _ (Or.inl (by simp [isInst, V.cls?, Base.sub]))]
+    cases b <;> simpa [truthy, floatOf] using h
+  | int c' i =>
+    simp [toFloat, isInst, V.cls?, Base.sub] at h ⊢
+    rw [attemptFromNumber_scalar P E _ (Or.inl (by simp [isInst, V.cls?, Base.sub]))]
+    by_cases hi : i = 0
+    · subst hi; simpa [truthy, floatOf] using h
+    · simpa [truthy, hi] using h
+  | dec c' d =>
+    simp [toFloat, isInst, V.cls?, Base.sub] at h ⊢
+    rw [attemptFromNumber_scalar P E _ (Or.inr (Or.inl (by simp [isInst, V.cls?, Base.sub])))]
+    cases d with
+    | fin s co e =>
+      by_cases hc : co = 0
+      · subst hc; simpa [truthy, floatOf, floatOfDec, floatOfInt] using h
+      · simpa [truthy, hc] using h
+    | inf s => simpa [truthy] using h
+    | nan s => simpa [truthy] using h
+  | bytes k c' bs => cases k <;> simp [toFloat, isInst, V.cls?, Base.sub, BytesK.base] at h
+  | seq k c' xs => cases k <;> simp [toFloat, isInst, V.cls?, Base.sub, SeqK.base] at h
+  | _ => simp [toFloat, isInst, V.cls?, Base.sub] at h
+
+theorem intFinish_flags (P : Prims) (n n' : Bool) (c : Nat) (d : V) :
+    intFinish P ⟨n, false⟩ c d = intFinish P ⟨n', false⟩ c d := by
+  simp [intFinish]
+
+theorem toInteger_nec (P : Prims) (E : Env) (c : Nat) (v : V) :
+    Sub (toInteger P E ⟨true, false⟩ c v) (toInteger P E ⟨false, false⟩ c v) := by
+  intro r h
+  cases v with
+  | bool b => simpa [toInteger] using h
+  | int c' i => simpa [toInteger] using h
+  | float c' x =>
+    simp [toInteger, isInst, V.cls?, Base.sub] at h ⊢
+    rw [attemptFromNumber_scalar P E _ (Or.inr (Or.inr (Or.inl (by simp [isInst, V.cls?, Base.sub]))))]
+    by_cases hz : fZero x = true
+    · obtain ⟨e, he⟩ := decOfFloatExact_zero x hz
+      simp [truthy, hz, intAfter]
+      simp [intFinish, decimalOf, he, intOfDec] at h
+      cases c with
+      | zero =>
+        simp [isInstT, isInst, V.cls?, Base.sub]
+        exact h
+      | succ k =>
+        simp [isInstT, V.cls?, intFinish, decimalOf, intOfDec]
+        exact h
+    · have hl : isInstT (V.float c' x) (Target.cls Base.int c) = false := by
+        cases c <;> simp [isInstT, isInst, V.cls?, Base.sub]
+      simp [truthy, hz, intAfter, hl]
+      rw [intFinish_flags P false true]; exact h
+  | dec c' d =>
+    simp [toInteger, isInst, V.cls?, Base.sub] at h ⊢
+    rw [attemptFromNumber_scalar P E _ (Or.inr (Or.inl (by simp [isInst, V.cls?, Base.sub])))]
+    have hl : isInstT (V.dec c' d) (Target.cls Base.int c) = false := by
+      cases c <;> simp [isInstT, isInst, V.cls?, Base.sub]
+    by_cases ht : truthy (V.dec c' d) = true
+    · simp [ht, intAfter, hl]
+      rw [intFinish_flags P false true]; exact h
+    · simp [ht, intAfter]
+      cases d with
+      | fin s co e =>
+        simp [truthy] at ht
+        subst ht
+        simp [intFinish, decimalOf, intOfDec] at h
+        cases c with
+        | zero =>
+          simp [isInstT, isInst, V.cls?, Base.sub]
+          first | exact h | (cases s <;> simp at h <;> exact h)
+        | succ k =>
+          simp [isInstT, V.cls?, intFinish, decimalOf, intOfDec]
+          first | exact h | (cases s <;> simp at h <;> exact h)
+      | inf s => simp [truthy] at ht
+      | nan s => simp [truthy] at ht
+  | bytes k c' bs => cases k <;> simp [toInteger, isInst, V.cls?, Base.sub, BytesK.base] at h
+  | seq k c' xs => cases k <;> simp [toInteger, isInst, V.cls?, Base.sub, SeqK.base] at h
+  | _ => simp [toInteger, isInst, V.cls?, Base.sub] at h
+
+theorem fromByteLike_flags (P : Prims) (n n' b : Bool) (v : V) :
+    fromByteLike P ⟨n, b⟩ v = fromByteLike P ⟨n', b⟩ v := by
+  cases v <;> rfl
+
+theorem attemptFrom_len_scalar (E : Env) (v : V) (h : multi v = false) (he : ∀ k i, v ≠ .enum k i) :
+    attemptFrom E ⟨false, false⟩ v = .ok v := by
+  cases v <;> simp [attemptFrom] <;> simp_all
+
+/-- `_attempt_from_number` on a value whose `_from_byte_like` image `d` is a plain scalar -/
+theorem attemptFromNumber_bytes (P : Prims) (E : Env) (v d : V) (hm : multi v = false) (he : ∀ k i, v ≠ .enum k i)
+    (hd : fromByteLike P ⟨false, false⟩ v = .ok d)
+    (hs : isInst d .int = true ∨ isInst d .decimal = true ∨ isInst d .float = true ∨ isInst d .str = true) :
+    attemptFromNumber P E ⟨false, false⟩ v = .ok (if truthy d then d else .int 0 0) := by
+  unfold attemptFromNumber
+  simp only [attemptFrom_len_scalar E v hm he, Outcome.ok_bind, hd]
+  cases d <;> simp [isInst, V.cls?, Base.sub] at hs <;> simp <;> try (split <;> simp_all)
+  all_goals (rename_i k _ _; cases k <;> simp [BytesK.base, SeqK.base] at hs)
+
+theorem toDecimal_nec (P : Prims) (E : Env) (c : Nat) (v r : V)
+    (h : toDecimal P E ⟨true, false⟩ c v = .ok r) :
+    ∃ r', toDecimal P E ⟨false, false⟩ c v = .ok r' ∧ sameValue r' r := by
+  unfold toDecimal at h ⊢
+  split at h
+  · exact ⟨_, h, sameValue.rfl' _⟩
+  · rename_i hnd
+    dsimp only at h ⊢
+    simp only [if_true, Bool.false_eq_true, if_false] at h ⊢
+    obtain ⟨d, hd, hr⟩ := Outcome.bind_eq_ok.mp h
+    obtain ⟨d1, hd1, hd2⟩ := Outcome.bind_eq_ok.mp hd
+    split at hd2
+    · rename_i hi
+      simp at hd2
+      subst hd2
+      have hm : multi v = false := by
+        cases v <;> simp [fromByteLike] at hd1 <;> try rfl
+        case seq k c' xs => subst hd1; cases k <;> simp [isInst, V.cls?, Base.sub, SeqK.base] at hi
+      have he : ∀ k i, v ≠ .enum k i := by
+        intro k i hv; subst hv
+        simp [fromByteLike] at hd1; subst hd1
+        simp [isInst, V.cls?] at hi
+      have hs : isInst d1 .int = true ∨ isInst d1 .decimal = true ∨ isInst d1 .float = true ∨ isInst d1 .str = true := by
+        simp at hi; rcases hi with ((hi | hi) | hi) | hi
+        · exact Or.inl hi
+        · exact Or.inr (Or.inr (Or.inl hi))
+        · exact Or.inr (Or.inr (Or.inr hi))
+        · exact Or.inr (Or.inl hi)
+      rw [fromByteLike_flags P true false] at hd1
+      simp only [attemptFromNumber_bytes P E v d1 hm he hd1 hs, Outcome.ok_bind]
+      by_cases ht : truthy d1 = true
+      · simp only [ht, if_true]; exact ⟨_, hr, sameValue.rfl' _⟩
+      · simp only [ht]
+        obtain ⟨x, hx, hr'⟩ := Outcome.bind_eq_ok.mp hr
+        simp at hr'; subst hr'
+        cases d1 <;> simp [isInst, V.cls?, Base.sub] at hs <;> simp [truthy] at ht
+        case bool b => subst ht; simp [decViaStr] at hx
+        case int c' i =>
+          subst ht; simp [decViaStr] at hx; subst hx
+          exact ⟨_, by simp [decViaStr] <;> rfl, sameValue.rfl' _⟩
+        case float c' f =>
+          simp [decViaStr, ht] at hx; subst hx
+          refine ⟨_, by simp [decViaStr] <;> rfl, Or.inr ⟨by simp [V.typeOf, V.cls?], _, _, rfl, rfl, ?_⟩⟩
+          simp [NumV.eq, Q.eq, Q.scaled]
+        case dec c' dd =>
+          exfalso
+          cases v <;> simp [fromByteLike] at hd1
+          · exact hnd _ _ rfl
+          · obtain ⟨s, _, hs'⟩ := Outcome.bind_eq_ok.mp hd1
+            simp at hs'
+        case str c' s => subst ht; simp [decViaStr, pyStrip_empty, decOfStr] at hx
+        case bytes k c' bs => cases k <;> simp [BytesK.base] at hs
+        case seq k c' xs => cases k <;> simp [SeqK.base] at hs
+    · simp at hd2
+
+theorem toComplex_nec (P : Prims) (E : Env) (c : Nat) (v : V) :
+    Sub (toComplex P E ⟨true, false⟩ c v) (toComplex P E ⟨false, false⟩ c v) := by
+  intro r h
+  unfold toComplex at h ⊢
+  splith h
+  · exact h
+  · dsimp only at h ⊢
+    simp only [if_true] at h ⊢
+    obtain ⟨d1, hd1, hd2⟩ := Outcome.bind_eq_ok.mp h
+    split at hd2
+    · rename_i hi
+      have hs : isInst d1 .int = true ∨ isInst d1 .decimal = true ∨ isInst d1 .float = true ∨ isInst d1 .str = true := by
+        simp at hi; rcases hi with ((hi | hi) | hi) | hi
+        · exact Or.inl hi
+        · exact Or.inr (Or.inr (Or.inl hi))
+        · exact Or.inr (Or.inl hi)
+        · exact Or.inr (Or.inr (Or.inr hi))
+      have hm : multi v = false := by
+        cases v <;> simp [fromByteLike] at hd1 <;> try rfl
+        case seq k c' xs => subst hd1; cases k <;> simp [isInst, V.cls?, Base.sub, SeqK.base] at hi
+      have he : ∀ k i, v ≠ .enum k i := by
+        intro k i hv; subst hv
+        simp [fromByteLike] at hd1; subst hd1
+        simp [isInst, V.cls?] at hi
+      rw [fromByteLike_flags P true false] at hd1
+      have hnt : ∀ c' a b, v ≠ V.seq SeqK.tuple c' [a, b] := by
+        intro c' a b hv; subst hv; simp [multi] at hm
+      split
+      · rename_i c' a b; exact absurd rfl (hnt c' a b)
+      · simp only [attemptFromNumber_bytes P E v d1 hm he hd1 hs, Outcome.ok_bind]
+        by_cases ht : truthy d1 = true
+        · simp only [ht, if_true]; exact hd2
+        · simp only [ht]
+          cases d1 <;> simp [isInst, V.cls?, Base.sub] at hs <;> simp [truthy] at ht
+          case bool b => subst ht; simpa [complexOf] using hd2
+          case int c' i => subst ht; simpa [complexOf] using hd2
+          case float c' f => simpa [complexOf, fZero_normZ f ht] using hd2
+          case dec c' dd =>
+            cases dd <;> simp at ht
+            subst ht; simpa [complexOf] using hd2
+          case str c' s => subst ht; simp [complexOf] at hd2
+          all_goals (rename_i k _ _; cases k <;> simp [BytesK.base, SeqK.base] at hs)
+    · simp at hd2
+
+theorem toBool_nec (P : Prims) (v : V) :
+    Sub (Conv.toBool P ⟨true, false⟩ v) (Conv.toBool P ⟨false, false⟩ v) := by
+  intro r h
+  unfold Conv.toBool at h ⊢
+  split at h
+  · exact h
+  · obtain ⟨b1, hb1, h2⟩ := Outcome.bind_eq_ok.mp h
+    clear h
+    simp only [hb1, Outcome.ok_bind]
+    splith h2
+    · exact h2
+    · obtain ⟨b0, hb0, h3⟩ := Outcome.bind_eq_ok.mp h2
+      clear h2
+      simp only [hb0, Outcome.ok_bind]
+      splith h3
+      · exact h3
+      · simp at h3
+
+/-- the value `_attempt_from` leaves alone in lenient mode as well -/
+def plainInput (v : V) : Prop := multi v = false ∧ ∀ k i, v ≠ .enum k i
+
+theorem toDatetime_nec (P : Prims) (E : Env) (c : Nat) (df : Bool) (v : V) :
+    Sub (toDatetime P E ⟨true, false⟩ c df v) (toDatetime P E ⟨false, false⟩ c df v) := by
+  intro r h
+  unfold toDatetime at h ⊢
+  splith h
+  · exact h
+  · split at h
+    · exact h
+    · exact h
+    · simp only [attemptFrom, if_true, Outcome.ok_bind] at h
+      -- what converts under no_explicit_cast is a number, a str or bytes: `_attempt_from` leaves those alone
+      by_cases hp : multi v = false ∧ ∀ k i, v ≠ .enum k i
+      · simp only [attemptFrom_len_scalar E v hp.1 hp.2, Outcome.ok_bind]
+        splith h
+        · exact h
+        · obtain ⟨d2, hd2, h3⟩ := Outcome.bind_eq_ok.mp h
+          rw [fromByteLike_flags P true false] at hd2
+          simp only [hd2, Outcome.ok_bind]
+          split at h3
+          · obtain ⟨o1, ho1, h4⟩ := Outcome.bind_eq_ok.mp h3
+            simp only [ho1, Outcome.ok_bind]
+            split at h4
+            · exact h4
+            · obtain ⟨o2, ho2, h5⟩ := Outcome.bind_eq_ok.mp h4
+              simp only [ho2, Outcome.ok_bind]
+              split at h5
+              · exact h5
+              · simp at h5
+          · exact h3
+          · exact h3
+          · exact h3
+      · exfalso
+        have hv : (∃ k c' xs, v = V.seq k c' xs) ∨ (∃ k i, v = V.enum k i) := by
+          cases v <;> simp [multi] at hp ⊢
+        rcases hv with ⟨k, c', xs, rfl⟩ | ⟨k, i, rfl⟩
+        · have hi : (isInst (V.seq k c' xs) Base.int || isInst (V.seq k c' xs) Base.float || isInst (V.seq k c' xs) Base.decimal) = false := by
+            cases k <;> simp [isInst, V.cls?, Base.sub, SeqK.base]
+          simp [hi, fromByteLike] at h
+        · simp [isInst, V.cls?, fromByteLike] at h
+
+theorem toDate_nec (P : Prims) (E : Env) (v : V) :
+    Sub (toDate P E ⟨true, false⟩ v) (toDate P E ⟨false, false⟩ v) := by
+  intro r h
+  unfold toDate at h ⊢
+  split at h
+  · exact h
+  · exact h
+  · obtain ⟨dt, hdt, h2⟩ := Outcome.bind_eq_ok.mp h
+    simp only [toDatetime_nec P E 0 true v dt hdt, Outcome.ok_bind]
+    exact h2
+
+/-- known defect `timedelta-numeric-string`: a text that `float()` also parses becomes a timedelta through
+`float` without flags but through `DURATION_REGS` under no_explicit_cast (different rounding, and a plain
+timedelta for subclass targets) -/
+def KnownDefect.timedeltaNumericString (P : Prims) (E : Env) (v : V) : Bool :=
+  match fromByteLike P ⟨false, false⟩ v with
+  | .ok (.str c s) =>
+    (match toFloat P E ⟨false, false⟩ 0 (.str c s) with
+     | .perr _ => false
+     | _ => true)
+  | _ => false
+
+theorem fromByteLike_str (P : Prims) (f : Flags) (v : V) (c : Nat) (s : String)
+    (h : fromByteLike P f v = .ok (.str c s)) : multi v = false ∧ ∀ k i, v ≠ .enum k i := by
+  cases v <;> simp [fromByteLike, multi] at h ⊢
+
+theorem fromByteLike_id (P : Prims) (f : Flags) (v d : V) (h : fromByteLike P f v = .ok d)
+    (hd : ∀ c s, d ≠ .str c s) : d = v := by
+  cases v <;> simp [fromByteLike] at h <;> try exact h.symm
+  obtain ⟨s, _, hs⟩ := Outcome.bind_eq_ok.mp h
+  simp at hs
+  exact absurd hs.symm (hd _ _)
+
+theorem toTimedelta_nec (P : Prims) (E : Env) (c : Nat) (v : V)
+    (hk : KnownDefect.timedeltaNumericString P E v = false) :
+    Sub (toTimedelta P E ⟨true, false⟩ c v) (toTimedelta P E ⟨false, false⟩ c v) := by
+  intro r h
+  unfold toTimedelta at h ⊢
+  splith h
+  · exact h
+  · simp only [attemptFrom, if_true, Outcome.ok_bind] at h
+    obtain ⟨d2, hd2, h3⟩ := Outcome.bind_eq_ok.mp h
+    clear h
+    rw [fromByteLike_flags P true false] at hd2
+    cases hf : toFloat P E ⟨true, false⟩ 0 d2 with
+    | ok x =>
+      simp only [hf] at h3
+      have hns : ∀ c' s, d2 ≠ .str c' s := by
+        intro c' s hd; subst hd
+        simp [toFloat, isInst, V.cls?, Base.sub] at hf
+      have hv : d2 = v := fromByteLike_id P _ v d2 hd2 hns
+      subst hv
+      have hp : multi d2 = false ∧ ∀ k i, d2 ≠ .enum k i := by
+        cases d2 <;> simp [toFloat, isInst, V.cls?, Base.sub, multi] at hf ⊢
+        rename_i k _ _; cases k <;> simp [SeqK.base] at hf
+      simp only [attemptFrom_len_scalar E d2 hp.1 hp.2, Outcome.ok_bind, hd2, toFloat_nec P E 0 d2 x hf]
+      split at h3
+      · split at h3
+        · simp at h3
+        · simpa using h3
+      all_goals simp_all
+    | perr e =>
+      simp only [hf] at h3
+      split at h3
+      · rename_i c' s
+        have hp := fromByteLike_str P _ v c' s hd2
+        simp only [attemptFrom_len_scalar E v hp.1 hp.2, Outcome.ok_bind, hd2]
+        have hfl : ∃ e', toFloat P E ⟨false, false⟩ 0 (V.str c' s) = .perr e' := by
+          simp only [KnownDefect.timedeltaNumericString, hd2] at hk
+          split at hk
+          · rename_i e' he'; exact ⟨e', he'⟩
+          · simp at hk
+        obtain ⟨e', he'⟩ := hfl
+        simp only [he']
+        obtain ⟨o, ho, h4⟩ := Outcome.bind_eq_ok.mp h3
+        simp only [ho, Outcome.ok_bind]
+        split at h4
+        · exact h4
+        · simp at h4
+      · simp at h3
+    | escape e => simp [hf] at h3
+    | diverge => simp [hf] at h3
+    | unmodelled w => simp [hf] at h3
+
+theorem toTime_nec (P : Prims) (E : Env) (c : Nat) (v : V) :
+    Sub (toTime P E ⟨true, false⟩ c v) (toTime P E ⟨false, false⟩ c v) := by
+  intro r h
+  unfold toTime at h ⊢
+  splith h
+  · exact h
+  · simp only [attemptFrom, if_true, Outcome.ok_bind] at h
+    simp only [Bool.false_eq_true, if_false] at h ⊢
+    by_cases hp : multi v = false ∧ ∀ k i, v ≠ .enum k i
+    · simp only [attemptFrom_len_scalar E v hp.1 hp.2, Outcome.ok_bind]
+      split at h
+      · exact h
+      · obtain ⟨d2, hd2, h3⟩ := Outcome.bind_eq_ok.mp h
+        rw [fromByteLike_flags P true false] at hd2
+        simp only [hd2, Outcome.ok_bind]
+        split at h3
+        · splith h3
+          · split at h3
+            · exact h3
+            · obtain ⟨dt, hdt, h4⟩ := Outcome.bind_eq_ok.mp h3
+              simp only [toDatetime_nec P E 0 false _ dt hdt, Outcome.ok_bind]
+              exact h4
+            · exact h3
+            · exact h3
+          · exact h3
+        · exact h3
+    · exfalso
+      have hv : (∃ k c' xs, v = V.seq k c' xs) ∨ (∃ k i, v = V.enum k i) := by
+        cases v <;> simp [multi] at hp ⊢
+      rcases hv with ⟨k, c', xs, rfl⟩ | ⟨k, i, rfl⟩
+      · simp [fromByteLike] at h
+      · simp [fromByteLike] at h
+
+theorem toUuid_nec (P : Prims) (c : Nat) (v : V) :
+    Sub (toUuid P ⟨true, false⟩ c v) (toUuid P ⟨false, false⟩ c v) := by
+  intro r h
+  unfold toUuid at h ⊢
+  splith h
+  · exact h
+  · split at h
+    · exact h
+    · exact h
+    · simp at h
+
+/-- outside the proved fragment (covered by the correspondence run only): under no_explicit_cast the
+input of a mixed-in enum (`class E(int, Enum)`) is looked up as it is, without flags it is first converted
+to the member type; the lookup by `==` agrees but the proof needs the congruence of `==` under that
+conversion -/
+def enumCastNeeded (E : Env) (k : Nat) (v : V) : Bool :=
+  match E.enum? k with
+  | some d => (match d.memberType with
+    | some b => !typeEq v (.cls b 0)
+    | Option.none => false)
+  | Option.none => false
+
+theorem toEnum_nec (P : Prims) (E : Env) (k : Nat) (v : V)
+    (hx : enumCastNeeded E k v = false)
+    (hm : ∀ w, toEnum P E ⟨false, false⟩ k v ≠ .unmodelled w) :
+    Sub (toEnum P E ⟨true, false⟩ k v) (toEnum P E ⟨false, false⟩ k v) := by
+  intro r h
+  unfold toEnum at h ⊢ hm
+  split at h
+  · splith h
+    · exact h
+    · exfalso; exact hm "member of another enum as input" (by simp [hc])
+  · simp only [if_true, Bool.false_eq_true, if_false] at h ⊢ hm
+    cases hd : E.enum? k with
+    | none => simp [enumCall, hd] at h
+    | some d =>
+      simp only [hd] at hm ⊢
+      have hb : enumBody P E ⟨false, false⟩ k d v = .ok r := by
+        unfold enumBody
+        cases hmt : d.memberType with
+        | none => exact h
+        | some b =>
+          simp only [enumCastNeeded, hd, hmt] at hx
+          simp only [convBase]
+          simp at hx
+          simp [hx]
+          exact h
+      simp [hb]
+
+theorem toIter_nec (P : Prims) (a : Abc) (v : V) :
+    Sub (toIter P ⟨true, false⟩ a v) (toIter P ⟨false, false⟩ a v) := by
+  intro r h
+  unfold toIter at h ⊢
+  splith h
+  · exact h
+  · exact toArray_nec P .list 0 v r h
+
+theorem toMapping_nec (P : Prims) (E : Env) (v : V) :
+    Sub (toMapping P E ⟨true, false⟩ v) (toMapping P E ⟨false, false⟩ v) := by
+  intro r h
+  unfold toMapping at h ⊢
+  splith h
+  · exact h
+  · exact toDict_nec P E 0 v r h
+
 end Utv.C12
